@@ -223,7 +223,8 @@ def to_events(name, trace):
         if phase == "post" and i not in got_event_before_ret:
             continue
         if phase == "post":
-            touches_after_ret.append(tok)
+            touches_after_ret.append(tok)        # the property's last clause is violated; nothing to map
+            continue
         if role(op) is None:
             raise Vocabulary("unexpected producer operation on an unnamed object: " + tok)
         if phase != "post":
@@ -293,74 +294,85 @@ def correspond(ck, traces, tag):
             ck.hits.append(dict(what="%s: a producer touched the waiter's event after the call returned: %s"
                                      % (t["scenario"], " ".join(mp["touches"])),
                                 key=t["scenario"].split("/")[0] + ":touch-after-return",
-                                replay=dict(harness="h_c11", scenario=t["scenario"], choices=t["choices"], trace=t["trace"])))
+                                replay=dict(harness="h_c11", scenario=t["scenario"], choices=t["choices"], trace=t["trace"],
+                                            opts=t.get("_opts", []))))
             continue
         n, one, timed = model_args(t["scenario"])
-        terms.append("obs_nat %d %s %s [%s]" % (n, one, timed, "; ".join(mp["evs"])))
-        metas.append((t, mp, "main", None))
         form, _, _, l = parse_scenario(t["scenario"])
-        for i in range(n):
-            if is_shared(form, n, i):
-                continue
-            kind = (i + l) % 3
-            terms.append("obs_later %s %d %s %s [%s] %d [%s]" % (LATER_KIND[kind], n, one, timed, "; ".join(mp["evs"]),
-                                                                i, "; ".join(mp["later"][i])))
-            metas.append((t, mp, "later", i))
+        lat = [i for i in range(n) if not is_shared(form, n, i)]
+        terms.append("obs_all %d %s %s [%s] [%s]" % (
+            n, one, timed, "; ".join(mp["evs"]),
+            "; ".join("(%d, (%s, [%s]))" % (i, LATER_KIND[(i + l) % 3], "; ".join(mp["later"][i])) for i in lat)))
+        metas.append((t, mp, lat))
     # identical terms (traces that differ only outside what a term looks at) are evaluated once
     uniq = sorted(set(terms))
-    ures, logs = vlib.coq_eval_cases(HEADER, uniq, tag, shard=300) if uniq else ([], [])
+    ures, logs = vlib.coq_eval_cases(HEADER, uniq, tag, shard=250) if uniq else ([], [])
     rmap = dict(zip(uniq, ures))
     failed = [x for x in uniq if rmap.get(x) is None]
     if failed:
         # another make may have rebuilt a library underneath us (inconsistent .vo): rebuild ours and retry once
         vlib.coq_make(["model/WaitEvObs.vo"])
-        rres, logs2 = vlib.coq_eval_cases(HEADER, failed, tag + "r", shard=300)
+        rres, logs2 = vlib.coq_eval_cases(HEADER, failed, tag + "r", shard=250)
         rmap.update(dict(zip(failed, rres)))
         logs += logs2
     res = [rmap.get(x) for x in terms]
     stats["coq_terms"] = len(uniq)
     bad = {}
     okmain = {}
-    for (t, mp, what, i), r in zip(metas, res):
+    for (t, mp, lat), r in zip(metas, res):
         key = t["scenario"] + "|" + t["trace"]
         if r is None:
-            bad.setdefault(key, (t, "model evaluation failed (%s)" % what))
+            bad.setdefault(key, (t, "model evaluation failed"))
             continue
-        if what == "main":
-            n = parse_scenario(t["scenario"])[1]
-            if r[0] == 0:
-                bad.setdefault(key, (t, "WaitEv rejects event #%d (%s)" % (r[1], mp["evs"][r[1]] if r[1] < len(mp["evs"]) else "?")))
-                continue
-            mret, mto, mtouch, munder, mdone = r[1], r[2], r[3], r[4], r[5]
-            mwords = r[6:6 + n]
-            want_words = [{"E": 0, "C": 1, "R": 2}[x] for x in mp["words_at_ret"]]
-            if mdone != 1 or mret != (2 if mp["ret"] else 1):
-                bad.setdefault(key, (t, "model predicts return %s (returned=%d), implementation returned %d" % (mret, mdone, mp["ret"])))
-            elif mwords != want_words:
-                bad.setdefault(key, (t, "model's words at the return %s, implementation's %s" % (mwords, want_words)))
-            elif mtouch != 0 or munder != 0:
-                bad.setdefault(key, (t, "model records touch-after-return=%d underflow=%d" % (mtouch, munder)))
-            else:
-                okmain[key] = (t, mp, mto)
-        else:
-            if r[0] == 0:
-                continue                      # reported by the main term
-            if r[0] == 2:
+        n = parse_scenario(t["scenario"])[1]
+        l = parse_scenario(t["scenario"])[3]
+        if r[0] == 0:
+            bad.setdefault(key, (t, "WaitEv rejects event #%d (%s)" % (r[1], mp["evs"][r[1]] if r[1] < len(mp["evs"]) else "?")))
+            continue
+        mret, mto, mtouch, munder, mdone = r[1], r[2], r[3], r[4], r[5]
+        mwords = r[6:6 + n]
+        want_words = [{"E": 0, "C": 1, "R": 2}[x] for x in mp["words_at_ret"]]
+        if mdone != 1 or mret != (2 if mp["ret"] else 1):
+            bad.setdefault(key, (t, "model predicts return %s (returned=%d), implementation returned %d" % (mret, mdone, mp["ret"])))
+            continue
+        if mwords != want_words:
+            bad.setdefault(key, (t, "model's words at the return %s, implementation's %s" % (mwords, want_words)))
+            continue
+        if mtouch != 0 or munder != 0:
+            bad.setdefault(key, (t, "model records touch-after-return=%d underflow=%d" % (mtouch, munder)))
+            continue
+        pos = 6 + n
+        ok = True
+        for i in lat:
+            ln = r[pos]
+            o = r[pos + 1:pos + 1 + ln]
+            pos += 1 + ln
+            if o[0] == 2:
                 bad.setdefault(key, (t, "Handoff (from WaitEv.proj of future %d) rejects later event #%d (%s)"
-                                     % (i, r[1], mp["later"][i][r[1]] if r[1] < len(mp["later"][i]) else "?")))
-                continue
-            term, frees, k = r[1], r[2], r[3]
-            mcbs = r[4:4 + k]
-            g = r[4 + k]
-            mgots = r[5 + k:5 + k + g]
-            o = mp["lobs"][i]
-            if mcbs != [c + 1 for c in o["cbs"]] or mgots != [x + 1 for x in o["gots"]]:
+                                     % (i, o[1], mp["later"][i][o[1]] if o[1] < len(mp["later"][i]) else "?")))
+                ok = False
+                break
+            if o[0] != 1:
+                bad.setdefault(key, (t, "no future %d in the model state" % i))
+                ok = False
+                break
+            term, frees, k = o[1], o[2], o[3]
+            mcbs = o[4:4 + k]
+            g = o[4 + k]
+            mgots = o[5 + k:5 + k + g]
+            ob = mp["lobs"][i]
+            if mcbs != [c + 1 for c in ob["cbs"]] or mgots != [x + 1 for x in ob["gots"]]:
                 bad.setdefault(key, (t, "Handoff predicts for future %d callbacks %s gets %s, implementation showed %s %s"
-                                     % (i, mcbs, mgots, o["cbs"], o["gots"])))
-            elif term != 1 or frees != 1:
+                                     % (i, mcbs, mgots, ob["cbs"], ob["gots"])))
+                ok = False
+                break
+            if term != 1 or frees != 1:
                 bad.setdefault(key, (t, "Handoff not terminal / freed once for future %d (terminal=%d frees=%d)" % (i, term, frees)))
-            else:
-                stats["later_replayed"] += 1
+                ok = False
+                break
+            stats["later_replayed"] += 1
+        if ok:
+            okmain[key] = (t, mp, mto)
     validated, nontriv = 0, set()
     for key, (t, mp, mto) in okmain.items():
         if key in bad:
@@ -368,26 +380,53 @@ def correspond(ck, traces, tag):
         validated += 1
         stats["ret_true" if mp["ret"] else "ret_false"] += 1
         stats["timeouts"] += mto
-        if "C" in "".join(mp["words_at_ret"]):
-            pass
+        if "EWaitRet" in mp["evs"]:
+            tail = mp["evs"][mp["evs"].index("EWaitRet"):]
+            if any(e.startswith("ECasW") and e.endswith("false") for e in tail):
+                stats["reset_raced"] += 1          # the producer's exchange landed between Reset's load and its CAS
         if nontrivial(t["trace"]):
             nontriv.add(key)
     return validated, nontriv, list(bad.values()), stats
 
 
-def harness_hits(ck, rows, out, err, rc, hname="h_c11"):
+def harness_hits(ck, rows, out, err, rc, hname="h_c11", exe=None, args=()):
     if rc != 0:
         m = re.search(r"CRASH signal=(\d+) choices=([\d,]*)", out + err)
         asan = re.search(r"ERROR: AddressSanitizer: ([a-z-]+)", out + err)
-        ck.hits.append(dict(what="harness %s ended abnormally (rc=%d)%s %s" % (hname, rc, (" " + asan.group(0)) if asan else "",
-                                                                                (err or out)[-800:]),
+        # the scenario that was running: the first one of the batch without a summary line
+        scen = None
+        if exe is not None:
+            largs = [a for a in args]
+            for k in ("--mode", "--max", "--seed", "--pb"):
+                if k in largs:
+                    i = largs.index(k)
+                    del largs[i:i + 2]
+            try:
+                r = vlib.sh([exe, "--list"] + largs, timeout=60)
+                done = set(x["scenario"] for x in rows if "mode" in x)
+                scen = next((x for x in r.stdout.split() if x not in done), None)
+            except Exception:
+                scen = None
+        ck.hits.append(dict(what="harness %s ended abnormally in %s (rc=%d)%s %s" % (hname, scen, rc, (" " + asan.group(0)) if asan else "",
+                                                                                      (err or out)[-800:]),
                             key="crash" if not asan else "asan:" + asan.group(1),
-                            replay=dict(harness=hname, choices=m.group(2) if m else None)))
+                            replay=dict(harness=hname, scenario=scen, choices=(m.group(2).rstrip(",") if m else None),
+                                        opts=explore_opts(list(args)))))
     for t in rows:
         if "trace" in t and t["fail"]:
             ck.hits.append(dict(what="%s: %s" % (t["scenario"], t["fail"]),
                                 key=t["scenario"].split("/")[0] + ":" + t["fail"][:40],
-                                replay=dict(harness=hname, scenario=t["scenario"], choices=t["choices"], trace=t["trace"])))
+                                replay=dict(harness=hname, scenario=t["scenario"], choices=t["choices"], trace=t["trace"],
+                                            opts=t.get("_opts", []))))
+
+
+def explore_opts(args):
+    """The options that change how a choice vector is interpreted (needed to replay it)."""
+    o = []
+    for k in ("--pb", "--weak", "--max-choices"):
+        if k in args:
+            o += [k, args[args.index(k) + 1]]
+    return o
 
 
 def plan(ck):
@@ -397,12 +436,12 @@ def plan(ck):
         return [
             ("n=1 all forms, exhaustive DFS (ticker scenarios only with later-kind 0)", ["--mode", "dfs", "--only", "/n1/", "--param", "light=1"], "n1"),
             ("n=2 DFS with preemption bound 2", ["--mode", "dfs", "--only", "/n2/", "--pb", "2", "--max", "100000"], "n2"),
-            ("n=3 seeded random walks", ["--mode", "random", "--only", "/n3/", "--max", "300", "--seed", seed], "n3"),
+            ("n=3 seeded random walks", ["--mode", "random", "--only", "/n3/", "--max", "100", "--seed", seed], "n3"),
         ]
     return [
         ("n=1 all forms, exhaustive DFS", ["--mode", "dfs", "--only", "/n1/", "--max", "3000000"], "n1"),
         ("n=2 DFS with preemption bound 3", ["--mode", "dfs", "--only", "/n2/", "--pb", "3", "--max", "3000000"], "n2"),
-        ("n=3 seeded random walks", ["--mode", "random", "--only", "/n3/", "--max", "20000", "--seed", seed], "n3"),
+        ("n=3 seeded random walks", ["--mode", "random", "--only", "/n3/", "--max", "400", "--seed", seed], "n3"),
     ]
 
 
@@ -430,7 +469,9 @@ def main(ck):
     for label, args, tag in plan(ck):
         t0 = time.time()
         rows, out, err, rc = runner.run_harness(exe, args, timeout=1500)
-        harness_hits(ck, rows, out, err, rc)
+        for r in rows:
+            r["_opts"] = explore_opts(args)
+        harness_hits(ck, rows, out, err, rc, exe=exe, args=args)
         hs = [r for r in rows if "mode" in r]
         ts = [r for r in rows if "trace" in r]
         heads += hs
@@ -448,9 +489,10 @@ def main(ck):
     if ck.tier == "thorough":
         t0 = time.time()
         exa, ba = vlib.compile_harness("FA", src, "c11")
-        rows, out, err, rc = runner.run_harness(exa, ["--mode", "random", "--max", "1500", "--seed", str(ck.seed)], timeout=1500,
+        fa_args = ["--mode", "random", "--max", "200", "--seed", str(ck.seed)]
+        rows, out, err, rc = runner.run_harness(exa, fa_args, timeout=1500,
                                                 env={"ASAN_OPTIONS": "detect_leaks=1:detect_stack_use_after_return=1:abort_on_error=0:exitcode=71"})
-        harness_hits(ck, rows, out, err, rc, "h_c11 (FA)")
+        harness_hits(ck, rows, out, err, rc, "h_c11 (FA)", exe=exa, args=fa_args)
         hs = [r for r in rows if "mode" in r]
         ck.cov["asan"] = dict(config="FA detect_stack_use_after_return=1", scenarios=len(hs),
                               executions=sum(h["executions"] for h in hs), returncode=rc, seconds=round(time.time() - t0, 1))
@@ -472,7 +514,7 @@ def main(ck):
     ck.cov["samples"] = samples
     for t, why in bad[:10]:
         ck.broken.append(dict(name="correspondence WaitEv.run / Handoff.run vs implementation on %s" % t["scenario"],
-                              detail="%s\ntrace: %s\nchoices: %s" % (why, t["trace"], t["choices"])))
+                              detail="%s\ntrace: %s\nchoices: %s %s" % (why, t["trace"], t["choices"], " ".join(t.get("_opts", [])))))
     if not all_rows:
         ck.broken.append(dict(name="correspondence WaitEv.run vs implementation", detail="harness produced no traces"))
 
@@ -485,7 +527,8 @@ def replay(ck, path):
         return 0
     cfg = "FA" if "(FA)" in (rp.get("harness") or "") else "F"
     exe, b = vlib.compile_harness(cfg, [os.path.join(vlib.VERIF, "harness", "h_c11.cpp")], "c11")
-    rows, out, err, rc = runner.run_harness(exe, ["--mode", "replay", "--exact", rp["scenario"], "--choices", rp["choices"]])
+    rows, out, err, rc = runner.run_harness(exe, ["--mode", "replay", "--exact", rp["scenario"], "--choices", rp["choices"]]
+                                            + list(rp.get("opts") or []))
     print(out)
     bad = any(r.get("fail") for r in rows if "trace" in r)
     for r in rows:
@@ -495,5 +538,6 @@ def replay(ck, path):
                     bad = True
                     print("a producer touched the waiter's event after the call returned")
             except Vocabulary as e:
+                bad = True
                 print("trace vocabulary: %s" % e)
     return 1 if bad or rc != 0 else 0
